@@ -57,14 +57,20 @@ theorem rekey_id (d : Data) (h : KeysAreNames d) : rekey d = d := by
   simp only at this ⊢
   simp [this]
 
+/-- every instant of the catalogue fits the int64 nanosecond count a snapshot stores it in -/
+def InRange (d : Data) : Prop := wrapTimes d = d
+
+instance (d : Data) : Decidable (InRange d) := by unfold InRange; infer_instance
+
 /-- **T1** snapshot followed by restore gives back the catalogue — for every state in which
-databases and policies are stored under their own names (an invariant, `kn_apply`). -/
-theorem restore_snapshot_id (d : Data) (h : KeysAreNames d) : restore (snapshot d) = d := by
+databases and policies are stored under their own names (an invariant, `kn_apply`) and every
+group boundary fits an int64 nanosecond count. -/
+theorem restore_snapshot_id (d : Data) (h : KeysAreNames d) (hr : InRange d) : restore (snapshot d) = d := by
   unfold restore snapshot unmarshal marshal clone
-  rw [maskData_id allModel_clone, maskData_id allModel_marshal, maskData_id allModel_unmarshal]
+  rw [maskData_id allModel_clone, maskData_id allModel_marshal, hr, maskData_id allModel_unmarshal]
   exact rekey_id d h
 
-/-- the hypothesis of T1 holds in every reachable state -/
+/-- the first hypothesis of T1 holds in every reachable state -/
 theorem reachable_keysAreNames (log : List Cmd) : KeysAreNames (applyAll Data.init log) :=
   kn_applyAll kn_init log
 
@@ -74,10 +80,30 @@ theorem applyAll_append (d : Data) (l1 l2 : List Cmd) : applyAll d (l1 ++ l2) = 
   | cons c l1 ih => simp [applyAll, ih]
 
 /-- **T2** a replica that restores a snapshot taken at *any* position of the log and applies
-the rest ends in the same catalogue as a replica that applied everything. -/
-theorem snapshot_anywhere (log : List Cmd) (i : Nat) :
+the rest ends in the same catalogue as a replica that applied everything — provided the
+catalogue at that position holds no group boundary outside the int64 range. -/
+theorem snapshot_anywhere (log : List Cmd) (i : Nat) (hr : InRange (applyAll Data.init (log.take i))) :
     applyAll (restore (snapshot (applyAll Data.init (log.take i)))) (log.drop i) = applyAll Data.init log := by
-  rw [restore_snapshot_id _ (reachable_keysAreNames _), ← applyAll_append, List.take_append_drop]
+  rw [restore_snapshot_id _ (reachable_keysAreNames _) hr, ← applyAll_append, List.take_append_drop]
+
+/-- the statement without the range hypothesis … -/
+def snapshot_restore_id_full : Prop := ∀ log : List Cmd, restore (snapshot (applyAll Data.init log)) = applyAll Data.init log
+
+/-- … is false on the code as it is: a shard group created for an instant two nanoseconds after
+`math.MinInt64` starts before the int64 range; the snapshot stores its start wrapped around
+(finding `group_start_before_int64_range`). -/
+def farPastLog : List Cmd := [
+  .createDataNode "n1:8400" "n1:8401" "",
+  .createDatabase "db0" none 1,
+  .createDbPtView "db0",
+  .createMeasurement "db0" "autogen" "m0" (some ⟨["t0"], "hash", 0⟩) 0 [],
+  .createShardGroup "db0" "autogen" (-9223372036854775806) 1 0 0]
+
+theorem snapshot_restore_id_full_false : ¬ snapshot_restore_id_full := by
+  intro h
+  have := h farPastLog
+  revert this
+  decide +kernel
 
 /-- **T3** `apply` is a function of the state and the command only: equal states and equal
 commands give equal states *and* equal results (no clock, no map order, no hidden input; for
@@ -102,13 +128,15 @@ def demoLog : List Cmd := [
 
 example : (applyAll Data.init demoLog).maxShardGroupID = 1 ∧ (applyAll Data.init demoLog).maxMstID = 2 := by decide +kernel
 example : restore (snapshot (applyAll Data.init demoLog)) = applyAll Data.init demoLog :=
-  restore_snapshot_id _ (reachable_keysAreNames _)
+  restore_snapshot_id _ (reachable_keysAreNames _) (by decide +kernel)
 
-/-- **snapshot + restore is the identity on every reachable catalogue** (T1 with its hypothesis
-discharged): every modelled field, the per-name version counters `MstVersions` included, comes
-back — whatever else the policy holds or no longer holds. -/
-theorem snapshot_restore_id (log : List Cmd) : restore (snapshot (applyAll Data.init log)) = applyAll Data.init log :=
-  restore_snapshot_id _ (reachable_keysAreNames _)
+/-- **snapshot + restore is the identity on every reachable catalogue** whose group boundaries fit
+the int64 range (T1 with its first hypothesis discharged): every modelled field, the per-name
+version counters `MstVersions` included, comes back — whatever else the policy holds or no
+longer holds. -/
+theorem snapshot_restore_id (log : List Cmd) (hr : InRange (applyAll Data.init log)) :
+    restore (snapshot (applyAll Data.init log)) = applyAll Data.init log :=
+  restore_snapshot_id _ (reachable_keysAreNames _) hr
 
 /-- the window in which the counters are the only trace of a measurement: created, marked
 deleted, purged — the policy is empty again, `MstVersions` still says `m0 ↦ 0`. -/
@@ -128,12 +156,12 @@ example : ((policyOf (applyAll Data.init emptiedPolicyLog) "db0" "autogen").map 
 /-- the counters of an emptied policy survive snapshot + restore … -/
 theorem versions_of_empty_policy_survive :
     ((policyOf (restore (snapshot (applyAll Data.init emptiedPolicyLog))) "db0" "autogen").map (·.mstVersions)) = some [⟨"m0", 0⟩] := by
-  rw [snapshot_restore_id]; decide +kernel
+  rw [snapshot_restore_id _ (by decide +kernel)]; decide +kernel
 
 /-- … so the restored replica hands out `m0_0001`, not the purged incarnation's `m0_0000`. -/
 theorem recreate_after_restore_takes_next_version :
     ((policyOf (applyAll (restore (snapshot (applyAll Data.init emptiedPolicyLog)))
         [.createMeasurement "db0" "autogen" "m0" (some ⟨["t0"], "hash", 0⟩) 0 []]) "db0" "autogen").map fun r => r.msts.map (·.name)) = some ["m0_0001"] := by
-  rw [snapshot_restore_id]; decide +kernel
+  rw [snapshot_restore_id _ (by decide +kernel)]; decide +kernel
 
 end OG.C15
